@@ -92,6 +92,7 @@ fn handshake(ctx: &mut Ctx) {
     world::swarm(ctx, SwarmOpts::default());
     ctx.out.extra_shape = x;
     let expect = should_admit(&c);
+    let extra = if ctx.plan(2) == 0 { 0 } else { 1 + ctx.plan(4) };
     let out = Rc::new(RefCell::new(Out { admitted_event: false, failed_event: false, connect_result: None, traffic_flowed: false, released: false, leaked_delivery: false, done: false }));
     let (o2, c2) = (out.clone(), c.clone());
     rt::task::spawn_local("app", async move {
@@ -113,6 +114,19 @@ fn handshake(ctx: &mut Ctx) {
         }
         if let Some(id) = &id {
             props.push((b"Identity".to_vec(), id.clone()));
+        }
+        // further metadata properties are legal in READY and decide nothing: a short one, one long
+        // value, many of them (the READY body then exceeds 255 resp. a few hundred bytes)
+        match extra {
+            1 => props.push((b"X-App".to_vec(), b"demo".to_vec())),
+            2 => props.push((b"X-Blob".to_vec(), vec![b'v'; 400])),
+            3 => {
+                for k in 0..20 {
+                    props.push((format!("X-Key-{k}").into_bytes(), vec![b'a' + k as u8; 30]));
+                }
+            }
+            4 => props.insert(0, (b"Resource".to_vec(), b"r".to_vec())),
+            _ => {}
         }
         let pr: Vec<(&[u8], &[u8])> = props.iter().map(|(a, b)| (&a[..], &b[..])).collect();
         let first_item = match c.first {
@@ -188,7 +202,7 @@ fn handshake(ctx: &mut Ctx) {
     });
     let end = ctx.sim.run(300_000);
     let o = out.borrow();
-    let tag = format!("{} {} a peer with greeting {}.{} / {:?} / signature {} and first item {} (Socket-Type {:?}, identity {:?})", c.kind.name(), if c.connecting { "connecting to" } else { "accepting" }, c.version.0, c.version.1, String::from_utf8_lossy(c.mech), ["ok", "byte 0 wrong", "byte 9 wrong"][c.sig as usize], ["READY", "other command", "message"][c.first as usize], c.peer_type, c.idlen);
+    let tag = format!("{} {} a peer with greeting {}.{} / {:?} / signature {} and first item {} (Socket-Type {:?}, identity {:?}, extra metadata variant {extra})", c.kind.name(), if c.connecting { "connecting to" } else { "accepting" }, c.version.0, c.version.1, String::from_utf8_lossy(c.mech), ["ok", "byte 0 wrong", "byte 9 wrong"][c.sig as usize], ["READY", "other command", "message"][c.first as usize], c.peer_type, c.idlen);
     if end == rt::RunEnd::Budget {
         ctx.violation("no_quiescence", format!("{tag}: no quiescence"));
     }
@@ -495,7 +509,7 @@ pub fn def() -> PropDef {
     PropDef {
         id: "C04",
         level: "fault_enumeration",
-        rule: "handshake: grid = local socket type (9) x peer Socket-Type (12 names, unknown, missing) x version {1.0,2.1,3.0,3.1,4.0} x mechanism {NULL,PLAIN,CURVE,unknown} x signature {ok, byte 0 wrong, byte 9 wrong} x identity {none, empty, 1, 255, 256 bytes} x first item {READY, other command, message} x side {accepted, connected} = 226800 scripted handshakes, each with drawn segmentation/schedule, compared with a reference admission predicate written from the statement and the RFC compatibility table (thorough: enumerated completely; quick: pseudo-random sample); observables: application message exchanged or not, monitor Accepted/AcceptFailed, connect() result, connection closed by the socket; registration: socket type (9) x 2..4 admissible peers, each announcing no identity, an empty one or a distinct non-empty one (1 byte, 255 bytes, leading zero byte, trailing zero bytes, white space), joining by connect-in at drawn times or by being dialled: exactly one admission event per peer, under the announced identity resp. pairwise distinct ones, no admitted connection closed by the socket, and each peer's traffic flows exactly once (probe delivered once / one copy per subscriber / n sends reach n peers); compat_table: the 144 SocketType::compatible queries (pure enumeration, a side check); distinct = distinct (configuration, plan, schedule, transport)",
+        rule: "handshake: grid = local socket type (9) x peer Socket-Type (12 names, unknown, missing) x version {1.0,2.1,3.0,3.1,4.0} x mechanism {NULL,PLAIN,CURVE,unknown} x signature {ok, byte 0 wrong, byte 9 wrong} x identity {none, empty, 1, 255, 256 bytes} x first item {READY, other command, message} x side {accepted, connected} = 226800 scripted handshakes, each with drawn segmentation/schedule and, in half of the cases, drawn extra READY metadata (a short property, one 400-byte value, twenty properties, a property ahead of Socket-Type) that must decide nothing, compared with a reference admission predicate written from the statement and the RFC compatibility table (thorough: enumerated completely; quick: pseudo-random sample); observables: application message exchanged or not, monitor Accepted/AcceptFailed, connect() result, connection closed by the socket; registration: socket type (9) x 2..4 admissible peers, each announcing no identity, an empty one or a distinct non-empty one (1 byte, 255 bytes, leading zero byte, trailing zero bytes, white space), joining by connect-in at drawn times or by being dialled: exactly one admission event per peer, under the announced identity resp. pairwise distinct ones, no admitted connection closed by the socket, and each peer's traffic flows exactly once (probe delivered once / one copy per subscriber / n sends reach n peers); compat_table: the 144 SocketType::compatible queries (pure enumeration, a side check); distinct = distinct (configuration, plan, schedule, transport)",
         assumptions: &["'known mechanism' is read as NULL, PLAIN or CURVE in the greeting, as the statement says (the library then performs the NULL handshake)", "the RFC table used by the oracle lists PAIR-PAIR, PUB/XPUB-SUB/XSUB, REQ-REP/ROUTER, DEALER-REP/DEALER/ROUTER, ROUTER-ROUTER, PUSH-PULL"],
         strata: vec![
             Stratum { name: "handshake", quick: 150_000, thorough: (GRID_SIZE) * 10, exhaustive: (false, true), run: handshake, what: "configuration grid of scripted handshakes vs the admission predicate" },
